@@ -23,8 +23,14 @@ type c10Op struct {
 	Entropy model.Bytes `json:"entropy,omitempty"`
 	FailAt  int         `json:"fail_at,omitempty"`
 	Budget  int         `json:"byte_budget,omitempty"` // encrypt-fault: the source runs dry after this many octets (fails inside a read)
-	IV      model.Bytes `json:"iv,omitempty"`          // decrypt-valid: reference-built ciphertext
-	Pad     int         `json:"pad,omitempty"`         // decrypt-valid: pad length used by the reference
+	// FailOnce: encrypt-fault with FailAt: only that read fails, the source works again afterwards (transient failure)
+	FailOnce bool `json:"fail_once,omitempty"`
+	// MaxRead: encrypt: the source hands out at most this many octets per Read (short reads without error)
+	MaxRead int `json:"max_read,omitempty"`
+	// Spare: encrypt: the plaintext slice has spare capacity behind it (as a sub-slice of a larger buffer has)
+	Spare bool        `json:"plaintext_has_spare_capacity,omitempty"`
+	IV    model.Bytes `json:"iv,omitempty"`  // decrypt-valid: reference-built ciphertext
+	Pad   int         `json:"pad,omitempty"` // decrypt-valid: pad length used by the reference
 }
 
 type c10In struct {
@@ -113,11 +119,18 @@ func c10Oracle(in c10In) probe.Outcome {
 			var eL, eF error
 			var chunks [][]byte
 			arg := probe.Exact(p)
-			probe.WithEntropy(op.Entropy, 0, func(e *probe.Entropy) {
+			if op.Spare {
+				arg = probe.Spare(p, 0xA5)
+				labels = append(labels, "plaintext-with-spare-capacity")
+			}
+			if op.MaxRead > 0 {
+				labels = append(labels, "source-short-reads")
+			}
+			probe.WithEntropyOpts(probe.EntropyOpts{Stream: op.Entropy, MaxRead: op.MaxRead}, func(e *probe.Entropy) {
 				eL = probe.Try(func() error { var x error; ctL, x = long.Encrypt(arg); return x })
 				chunks = e.Chunks
 			})
-			probe.WithEntropy(op.Entropy, 0, func(e *probe.Entropy) {
+			probe.WithEntropyOpts(probe.EntropyOpts{Stream: op.Entropy, MaxRead: op.MaxRead}, func(e *probe.Entropy) {
 				eF = probe.Try(func() error { var x error; ctF, x = fresh.Encrypt(probe.Exact(p)); return x })
 			})
 			if eL != nil {
@@ -175,7 +188,7 @@ func c10Oracle(in c10In) probe.Outcome {
 			if op.Budget > 0 {
 				probe.WithEntropyBudget(op.Entropy, op.Budget, run)
 			} else {
-				probe.WithEntropy(op.Entropy, op.FailAt, run)
+				probe.WithEntropyOpts(probe.EntropyOpts{Stream: op.Entropy, FailAt: op.FailAt, FailOnce: op.FailOnce}, run)
 			}
 			if probe.IsPanic(eL) {
 				return probe.Fail("step %d: Encrypt panics when the random source fails: %v", i, eL)
@@ -188,6 +201,9 @@ func c10Oracle(in c10In) probe.Outcome {
 			}
 			if failed {
 				labels = append(labels, fmt.Sprintf("fault-at-read:%d", op.FailAt))
+				if op.FailOnce {
+					labels = append(labels, "fault:transient")
+				}
 				nontrivial = true
 			}
 		case "decrypt-valid":
@@ -255,7 +271,11 @@ func c10GenOp(t *rapid.T) c10Op {
 	switch gen.Pick(t, "op", 5, 2, 2, 2) {
 	case 0:
 		n := gen.Len(t, "ptlen", 0, 4096, 0, 1, 15, 16, 17, 31, 32, 33, 47, 48, 255, 256, 4095, 4096)
-		return c10Op{Op: "encrypt", Data: gen.Fill(t, "pt", n), Entropy: c10Entropy(t)}
+		op := c10Op{Op: "encrypt", Data: gen.Fill(t, "pt", n), Entropy: c10Entropy(t), Spare: rapid.IntRange(0, 2).Draw(t, "spare") == 2}
+		if rapid.IntRange(0, 3).Draw(t, "shortreads") == 3 {
+			op.MaxRead = rapid.SampledFrom([]int{1, 2, 3, 7, 8, 15, 16, 17}).Draw(t, "maxread")
+		}
+		return op
 	case 1:
 		n := gen.Len(t, "ptlen", 0, 300, 0, 15, 16)
 		base := 15 - n%16
@@ -269,7 +289,7 @@ func c10GenOp(t *rapid.T) c10Op {
 		if rapid.Bool().Draw(t, "bytebudget") {
 			return c10Op{Op: "encrypt-fault", Data: gen.Fill(t, "pt", n), Entropy: c10Entropy(t), Budget: rapid.IntRange(1, 40).Draw(t, "budget")}
 		}
-		return c10Op{Op: "encrypt-fault", Data: gen.Fill(t, "pt", n), Entropy: c10Entropy(t), FailAt: rapid.IntRange(1, 3).Draw(t, "failat")}
+		return c10Op{Op: "encrypt-fault", Data: gen.Fill(t, "pt", n), Entropy: c10Entropy(t), FailAt: rapid.IntRange(1, 3).Draw(t, "failat"), FailOnce: rapid.Bool().Draw(t, "failonce")}
 	}
 }
 
@@ -340,6 +360,7 @@ func TestC10(t *testing.T) {
 				probe.WithEntropy(nil, 0, func(en *probe.Entropy) { _, _ = x.Encrypt(make([]byte, n)); reads = en.Reads })
 				for k := 1; k <= reads+1; k++ {
 					c10Table.Eval(c, c10In{Encr: e, Key: key, Ops: []c10Op{{Op: "encrypt-fault", Data: make([]byte, n), FailAt: k}}})
+					c10Table.Eval(c, c10In{Encr: e, Key: key, Ops: []c10Op{{Op: "encrypt-fault", Data: make([]byte, n), FailAt: k, FailOnce: true}}})
 				}
 				// ... and at every octet: the source runs dry after b octets, for every b below what the fault-free run consumed
 				consumed := 0
